@@ -143,6 +143,7 @@ UNIT = {
          'rewrites': [('RX', 'R7', r'struct ParsedDecisionTable', 'pub struct ParsedDecisionTable', 1), ('RX', 'R7', r'\n  (component_names|output_values_evaluators|default_output_values_evaluators|rules):', r'\n  pub \1:', 4)]},
         {'kind': 'fn', 'src': V, 'path': 'impl Value::fn is_true', 'key': 'hitpolicy::Value::is_true', 'props': P, 'auto_props': A, 'ret': 'r', 'loops': 0,
          'ensures': [('is_true', 'r == (*self == Value::Boolean(true))')]},
+    ] + C.value_api('hitpolicy', P, A, skip=('is_true',)) + [
         {'kind': 'fn', 'src': T, 'path': 'fn evaluate_parsed_decision_table', 'key': 'hitpolicy::evaluate_parsed_decision_table', 'props': P, 'auto_props': A, 'ret': 'r',
          'sig_rewrite': [(r'^(\s*)fn ', r'\1pub fn ')],
          'rewrites': [('R16', 1), ('R16', 0), ('RX', 'R8e', r'\bevaluator\(scope\)', 'evaluator.call(scope)', 4),
